@@ -200,10 +200,13 @@ func runAgg(e *simcore.Env, tp *simcore.Tape, cluster bool) {
 		m := wl.NewMeasureModel(s)
 		msgID := uint64(1)
 		hist := ""
+		// null field values: an aggregate ranges over the non-null values (the vectorized path skips nulls; the row path
+		// refuses to aggregate them: recorded finding)
+		nullFieldRate := []int{0, 0, 5}[tp.Side().Choose(3)]
 		for i, k := 0, tp.Range(2, 8); i < k; i++ {
 			if tp.Weighted(3, 2) == 0 {
 				time.Sleep(time.Millisecond)
-				rows := m.GenBatch(tp, wl.BatchOpts{BaseMs: time.Now().UnixMilli(), SpanMs: int64([]int{1000, 3600_000, 2 * 86400_000}[tp.Choose(3)]), MaxRows: 80, MaxSeries: 6, Plain: true, SmallField: true}, i)
+				rows := m.GenBatch(tp, wl.BatchOpts{BaseMs: time.Now().UnixMilli(), SpanMs: int64([]int{1000, 3600_000, 2 * 86400_000}[tp.Choose(3)]), MaxRows: 80, MaxSeries: 6, Plain: true, SmallField: true, NullFieldRate: nullFieldRate}, i)
 				reqs := m.ToRequests(rows, msgID)
 				msgID += uint64(len(reqs))
 				resps, werr := n.WriteMeasure(reqs)
@@ -338,12 +341,20 @@ func runAgg(e *simcore.Env, tp *simcore.Tape, cluster bool) {
 			// reference
 			groups := map[string][]num{}
 			overflowRisk := false
+			nullIn := false
+			nullRowsOf := map[string]int{} // per group: selected rows whose aggregated field is null
 			for _, r := range m.Rows {
 				if r.Ts < q.lo || r.Ts > q.hi {
 					continue
 				}
 				v, ok := fieldNum(r.Fields[q.field.Name])
 				if !ok {
+					nullIn = true
+					var kp []string
+					for _, g := range q.groupTags {
+						kp = append(kp, g+"="+wl.CanonTag(r.Tags[g]))
+					}
+					nullRowsOf[strings.Join(kp, " ")]++
 					continue
 				}
 				if !v.float && (v.i > 1<<50 || v.i < -(1<<50)) {
@@ -407,7 +418,34 @@ func runAgg(e *simcore.Env, tp *simcore.Tape, cluster bool) {
 			}
 			// fail reports a disagreement; in an affected placement a wrong/missing value is the recorded finding (when
 			// listed the query is skipped and checking goes on), an invented or repeated group never is
+			if nullIn {
+				e.Probe("reach.aggregate_over_null_field")
+			}
+			// a group (or a scalar aggregate) all of whose selected values are NULL: the vectorized path answers with the
+			// accumulator's start value (MAX = -MaxFloat64, MIN = +MaxFloat64, SUM/COUNT 0, MEAN 1): recorded finding
+			allNull := false
+			for k := range nullRowsOf {
+				if _, has := groups[k]; !has {
+					allNull = true
+				}
+			}
+			if allNull {
+				e.Probe("reach.group_with_only_null_values")
+				if e.Known("aggregate", "measure:all-null-group-answered-with-start-value") {
+					continue
+				}
+				e.Fail("aggregate", "measure:all-null-group-answered-with-start-value", "query %d (%s): a selected group has only NULL values of %s; answer: %v", qi, q, q.field.Name, got)
+				return
+			}
 			fail := func(kind, format string, args ...any) (stop bool) {
+				if nullIn && qpTag == "row-path" && !strings.HasPrefix(kind, "unknown-group") && !strings.HasPrefix(kind, "group-returned-twice") {
+					// the row path logs "unsupported field type" when the plan is closed and returns the groups it had finished
+					if e.Known("aggregate", "measure:row-path-refuses-null-field") {
+						return false
+					}
+					e.Fail("aggregate", "measure:row-path-refuses-null-field", format, args...)
+					return true
+				}
 				if affected && !strings.HasPrefix(kind, "unknown-group") && !strings.HasPrefix(kind, "group-returned-twice") {
 					if e.Known("aggregate", "cluster:partials-not-per-shard") {
 						return false
